@@ -20,7 +20,8 @@ RULE = ("every model of C13's lattice families (all point sequences over {0..3} 
         "samples, every valid choice of the best_k nearest under distance ties, density from the "
         "stored constant and range, acceptable = (label, cluster) of any chosen neighbour "
         "attaining max min(cost, density); Fortran / transposed layouts and calls after an interrupted "
-        "predict for the 2-D family; non-trivial = more than one valid neighbour choice, "
+        "predict for the 2-D family; pre-computed matrices with ALL query rows in one batch (ascending and "
+        "descending) whose query x query block - never mentioned by the rule - is honest, all 0 or all 1e30; non-trivial = more than one valid neighbour choice, "
         "or more than one acceptable outcome, or batch position < n")
 ASSUMPTIONS = [
     "the model's stored constant, density range, costs and labels are taken as given (C12/C13 judge them)",
@@ -37,7 +38,9 @@ def bounds(tier):
     return {"models": "P(3..4%s,{0..3}), P(3,{0,1,2}^2) x all k ranges; P(4,{0..3}) scaled by 1e-11 under "
             "squared_euclidean%s" % ((",5", "") if tier == "thorough" else
                                      ("", "; P(5,{0..3}) with forced k = 2, 3 and training copies as queries")),
-            "metrics": METRICS[tier], "batch_positions": "0..n"}
+            "metrics": METRICS[tier], "batch_positions": "0..n",
+            "joint_batches": "pre-computed P(3..4,{0..3}) x k = 1..n-1 forced x query-query block in "
+                             "{honest, 0, 1e30} x batch order in {ascending, descending}"}
 
 
 def plan(tier, seed):
@@ -60,6 +63,11 @@ def plan(tier, seed):
     # KNN-supervised model gets one class per sample, so the returned label names the winning neighbour
     for a, b in E.chunks(720, 45):
         shards.append(("gen", 6, "euclidean", a, b))
+    # pre-computed distances, ALL queries in one batch: the rule reads only (query, training sample)
+    # entries, so the query x query block of the matrix is free - honest, all 0, or all huge
+    for n in (3, 4):
+        for a, b in E.chunks(4 ** n, 8 if n >= 4 else 16):
+            shards.append(("pre-batch", n, "euclidean", a, b))
     # ordinary lattice data at a scale where every squared distance is ~1e-22
     for a, b in E.chunks(4 ** 4, 16):
         shards.append(("1d-tiny", 4, "squared_euclidean", a, b))
@@ -113,6 +121,37 @@ def _programs(shard, seed):
                     else:
                         p["val"] = {"X": X, "labels": lab}
                     yield p
+        return
+    if lk == "pre-batch":
+        pts = E.lattice("1d", seed)
+        qs = [q[0] for q in queries(pts)]
+        for si in range(a, b):
+            seq = E.sequence_at(len(pts), n, si)
+            xs = [pts[i][0] for i in seq]
+            allp = xs + qs
+            base = [[abs(u - v) for v in allp] for u in allp]
+            for block in ("honest", "zero", "huge"):
+                W = [row[:] for row in base]
+                if block != "honest":
+                    for u in range(n, len(allp)):
+                        for v in range(n, len(allp)):
+                            if u != v:
+                                W[u][v] = 0.0 if block == "zero" else 1e30
+                for mx in range(1, n):
+                    for model in ("UnsupervisedOPF", "KNNSupervisedOPF"):
+                        lab = [i % 2 for i in range(n)]
+                        p = {"model": model, "mode": "pre", "W": W, "labels": lab, "max_k": mx,
+                             "force_k": mx, "joint": True, "block": block,
+                             "queries": [[q] for q in qs], "pad": [0.0], "positions": [0]}
+                        if model == "UnsupervisedOPF":
+                            p["min_k"] = 1
+                        else:
+                            # KNNSupervisedOPF.fit insists on an n x n matrix: it is fitted on the training
+                            # block and given the complete matrix (public attribute) before predicting
+                            p["val"] = {"I": list(range(n)), "labels": lab}
+                            p["W_full"] = W
+                            p["W"] = [row[:n] for row in W[:n]]
+                        yield p
         return
     if lk == "gen":
         import itertools
@@ -177,14 +216,18 @@ def _programs(shard, seed):
                            "queries": [], "pad": pad, "positions": [0], "critical": True}
 
 
-def acceptable(m, q, unsup):
-    """Set of acceptable (label, cluster) outcomes, #valid neighbour choices."""
+def acceptable(m, q, unsup, row=None):
+    """Set of acceptable (label, cluster) outcomes, #valid neighbour choices.  With row=<list> the
+    distances to the training samples (in node order) are given (pre-computed mode)."""
     sg = m.subgraph
     N = sg.nodes
     n = len(N)
     k = int(sg.best_k)
-    qa = np.array(q, dtype=float)
-    d = [float(m.distance_fn(qa.copy(), N[j].features.copy())) for j in range(n)]
+    qa = None if q is None else np.array(q, dtype=float)
+    if row is not None:
+        d = [float(v) for v in row]
+    else:
+        d = [float(m.distance_fn(qa.copy(), N[j].features.copy())) for j in range(n)]
     order = sorted(range(n), key=lambda j: d[j])
     kth = d[order[k - 1]]
     sure = [j for j in range(n) if d[j] < kth]
@@ -287,6 +330,8 @@ def run_case(prog, res=None):
                 return viol(prog, "query %s received %s in the first call after a predict call interrupted at its "
                             "metric call %d; the exhaustive rule allows only %s" % (q0, got, k, sorted(acc0)),
                             "outcome depends on an earlier interrupted call")
+    if prog.get("joint"):
+        return run_joint(prog, m, unsup, n, res)
     for q in prog["queries"]:
         acc, nch = acceptable(m, q, unsup)
         for pos in positions:
@@ -316,6 +361,40 @@ def run_case(prog, res=None):
                             "only %s (best_k=%d)" % (q, pos, got, n, sorted(acc), m.subgraph.best_k),
                             "outcome not allowed by the exhaustive rule"
                             + (" (batch position < n_train)" if pos < n and pos > 0 else ""), q, pos)
+    return None
+
+
+def run_joint(prog, m, unsup, n, res):
+    """pre-computed mode: every query row of W in ONE predict call (in the given order and reversed);
+    each answer is judged from its own row of distances to the training samples only."""
+    W = prog.get("W_full", prog["W"])
+    if "W_full" in prog:
+        m.pre_distances = np.array(W, dtype=float)
+    nq = len(W) - n
+    idx_tr = [int(nd.idx) for nd in m.subgraph.nodes]
+    for order in (list(range(n, n + nq)), list(range(n + nq - 1, n - 1, -1))):
+        try:
+            out = m.predict(np.zeros((nq, 1)), np.array(order, dtype=int))
+        except Horizon:
+            raise
+        except Exception as ex:
+            return viol(prog, "predict raised %r" % (ex,), "predict raised %s" % type(ex).__name__)
+        for pos, qi in enumerate(order):
+            acc, nch = acceptable(m, None, unsup, row=[W[qi][t] for t in idx_tr])
+            got = (int(out[0][pos]), int(out[1][pos])) if unsup else (int(out[pos]), 0)
+            if res is not None:
+                res.transitions += 1
+                res.evaluations += 1
+                if nch > 1 or len(acc) > 1 or pos > 0:
+                    res.nontrivial += 1
+                res.outcome(("J" + prog["model"][0], n, nch > 1, len(acc), got in acc))
+            if got not in acc:
+                return viol(prog, "pre-computed matrix (query x query block %s), all %d query rows in one batch "
+                            "%s: row %d at batch position %d received (label, cluster) = %s; the exhaustive rule "
+                            "over its distances to the %d training samples allows only %s (best_k=%d)"
+                            % (prog["block"], nq, "ascending" if order[0] == n else "descending", qi, pos, got,
+                               n, sorted(acc), m.subgraph.best_k),
+                            "outcome in a joint batch not allowed by the exhaustive rule")
     return None
 
 
